@@ -4,6 +4,7 @@ import (
 	"bytes"
 	"fmt"
 	"math/big"
+	"runtime"
 
 	"filippo.io/edwards25519"
 	"filippo.io/edwards25519/field"
@@ -26,6 +27,14 @@ func (r *Run) execPseudo(op *OpDesc, c *Call) []*Violation {
 		if r.Transcript != nil {
 			*r.Transcript = append(*r.Transcript, fmt.Sprintf("%d %s", r.StepNo, c.String()))
 		}
+		return nil
+	case "H.GC":
+		// the simulator keeps the collector off; this is the seeded, replayable
+		// version of "a collection happened here": everything parked in a
+		// sync.Pool is dropped (two cycles: primary, then victim cache)
+		runtime.GC()
+		runtime.GC()
+		r.Stats.Inc("fault/gc/pool-eviction")
 		return nil
 	case "H.Scribble":
 		return r.scribble(c)
